@@ -12,7 +12,7 @@ AM = ((1, 'r'), (1, 'o'), (0, 'o'))
 
 def run(tier: str) -> int:
     ps = [
-        profiles.systematic_profile('conv', lambda k, f: f in ('conv',), True, 30, 200, ORACLES,
+        profiles.systematic_profile('conv', lambda k, f: f in ('conv',), True, 56, 220, ORACLES,
                                     inputs=profiles.inputs_exhaustive(3, 5, cap_q=90, cap_t=700), per_tu=2, use_sem=True,
                                     configs=profiles.amr_configs(ams=AM),
                                     ctx_names=['top', 'sor-first', 'seq-tail', 'in-opt', 'in-tcrf', 'in-not_at']),
